@@ -50,7 +50,9 @@ use vls_protocol::model::{self, PubKey, Utxo};
 use vls_protocol::msgs::{self, Message, SerBolt};
 use vls_protocol::psbt::StreamedPSBT;
 use vls_protocol::serde_bolt::{Array, Octets, WithSize};
-use vls_protocol_signer::approver::Approve;
+use vls_protocol_signer::approver::{
+    Approval, Approve, MemoApprover, NegativeApprover, PositiveApprover, VelocityApprover, WarningPositiveApprover,
+};
 use vls_protocol_signer::handler::{Handler, InitHandler, RootHandler};
 
 const U64MAX: u64 = u64::MAX;
@@ -2086,6 +2088,233 @@ fn handler_domain(args: &Args) {
     );
 }
 
+// ------------------------------------------------------------------ memo domain
+
+/// The repository's own approvers under RootHandler: explicit approvals of whole transactions
+/// (MemoApprover::approve), then SignWithdrawal requests for the approved transaction, for it again, and for
+/// look-alikes (same outputs with other / larger inputs, another locktime or sequence, one output value
+/// changed).  Every transaction has an output to nowhere, so the approval is all that stands between the
+/// request and a signature.
+fn memo_domain(args: &Args) {
+    use bitcoin::psbt::Psbt;
+    let mut rng = Rng::new(mix_seed(args.seed ^ 0xc08c));
+    let secp = Secp256k1::new();
+    let mut stats: std::collections::BTreeMap<String, u64> = Default::default();
+    let mut monitor_failures = 0u64;
+    for case in 0..args.n {
+        let pol = Pol { max_feerate: 333_333, disable_beneficial: false, rules: vec![], vel_kind: 1, vel_limit: 1_000_000_000 };
+        let mut seed = [0u8; 32];
+        seed[0] = (case % 251) as u8;
+        seed[1] = 0xca;
+        let world = World::new(real_policy(&pol), seed, KeyDerivationStyle::Native);
+        let node = world.new_node();
+        let refw = RefWallet { secp: secp.clone(), account: node.get_account_extended_key().clone(), allow_scripts: vec![], xpubs: vec![] };
+        // the approver under test
+        let kind = *rng.pick(&[0u64, 0, 0, 0, 1, 1, 2, 3, 4]);
+        let memo_neg = Arc::new(MemoApprover::new(NegativeApprover()));
+        let vc = VelocityControl::new(VelocityControlSpec { limit_msat: 1_000_000, interval_type: VelocityControlIntervalType::Hourly });
+        let memo_vel = Arc::new(MemoApprover::new(VelocityApprover::new(world.clock.clone(), vc, NegativeApprover())));
+        let (name, delegate_yes, approver): (&str, bool, Arc<dyn Approve>) = match kind {
+            0 => ("MemoApprover<NegativeApprover>", false, memo_neg.clone()),
+            1 => ("MemoApprover<VelocityApprover<NegativeApprover>>", false, memo_vel.clone()),
+            2 => ("NegativeApprover", false, Arc::new(NegativeApprover())),
+            3 => ("MemoApprover<PositiveApprover>", true, Arc::new(MemoApprover::new(PositiveApprover()))),
+            _ => ("WarningPositiveApprover", true, Arc::new(WarningPositiveApprover())),
+        };
+        let root = make_root(&node, approver);
+
+        // ---- transaction A and its look-alikes
+        struct Coin {
+            prev: Transaction,
+            vout: u32,
+            key: u32,
+        }
+        let mut mk_coin = |rng: &mut Rng, value: u64| -> Coin {
+            let key = rng.below(40) as u32;
+            let script = refw.script_of(&refw.wallet_key(&path_of(&[key])), 0);
+            let mut h = rng.bytes32();
+            h[0] = 0xaa;
+            let prev = Transaction {
+                version: Version::TWO,
+                lock_time: LockTime::ZERO,
+                input: vec![TxIn { previous_output: OutPoint { txid: Txid::from_slice(&h).unwrap(), vout: 0 }, script_sig: ScriptBuf::new(), sequence: Sequence::MAX, witness: Witness::default() }],
+                output: vec![TxOut { value: Amount::from_sat(value), script_pubkey: script }],
+            };
+            Coin { prev, vout: 0, key }
+        };
+        let unknown_script = refw.script_of(&refw.wallet_key(&path_of(&[10_000 + rng.below(50) as u32])), 0);
+        let change_key = rng.below(40) as u32;
+        let change_pk = refw.wallet_key(&path_of(&[change_key]));
+        let pay = 10_000 + rng.below(5_000_000);
+        let change = 10_000 + rng.below(5_000_000);
+        let fee = 200 + rng.below(400);
+        let with_change = rng.chance(2, 3);
+        let mut outputs = vec![TxOut { value: Amount::from_sat(pay), script_pubkey: unknown_script.clone() }];
+        if with_change {
+            outputs.push(TxOut { value: Amount::from_sat(change), script_pubkey: refw.script_of(&change_pk, 0) });
+        }
+        let total_out: u64 = outputs.iter().map(|o| o.value.to_sat()).sum();
+        let coin_a = mk_coin(&mut rng, total_out + fee);
+        let extra = *rng.pick(&[1u64, 100_000, 100_000_000, 2_000_000_000]);
+        let coin_big = mk_coin(&mut rng, total_out + fee + extra);
+        let coin_same = mk_coin(&mut rng, total_out + fee);
+        let mk_tx = |coins: &[&Coin], outputs: &[TxOut], lock: u32, seq: Sequence| Transaction {
+            version: Version::TWO,
+            lock_time: LockTime::from_consensus(lock),
+            input: coins
+                .iter()
+                .map(|c| TxIn { previous_output: OutPoint { txid: c.prev.compute_txid(), vout: c.vout }, script_sig: ScriptBuf::new(), sequence: seq, witness: Witness::default() })
+                .collect(),
+            output: outputs.to_vec(),
+        };
+        let mut out_changed = outputs.clone();
+        let j = rng.below(out_changed.len() as u64) as usize;
+        out_changed[j].value = Amount::from_sat(out_changed[j].value.to_sat() - 1 - rng.below(100));
+        // (label, transaction, coins)
+        let txs: Vec<(&'static str, Transaction, Vec<&Coin>)> = vec![
+            ("A", mk_tx(&[&coin_a], &outputs, 0, Sequence::ZERO), vec![&coin_a]),
+            ("A's outputs, a larger input", mk_tx(&[&coin_big], &outputs, 0, Sequence::ZERO), vec![&coin_big]),
+            ("A's outputs, another input of the same value", mk_tx(&[&coin_same], &outputs, 0, Sequence::ZERO), vec![&coin_same]),
+            ("A's outputs, A's input and a second one", mk_tx(&[&coin_a, &coin_big], &outputs, 0, Sequence::ZERO), vec![&coin_a, &coin_big]),
+            ("A with another locktime", mk_tx(&[&coin_a], &outputs, 500_000 + rng.below(1000) as u32, Sequence::ZERO), vec![&coin_a]),
+            ("A with another sequence", mk_tx(&[&coin_a], &outputs, 0, Sequence::ENABLE_RBF_NO_LOCKTIME), vec![&coin_a]),
+            ("A with one output value lowered", mk_tx(&[&coin_a], &out_changed, 0, Sequence::ZERO), vec![&coin_a]),
+        ];
+
+        // ---- operations: the canonical sequence, then random ones
+        #[derive(Clone)]
+        enum Op {
+            Set(Vec<usize>),
+            Ask(usize),
+        }
+        let mut ops: Vec<Op> = vec![Op::Set(vec![0]), Op::Ask(0), Op::Ask(0)];
+        for v in 1..txs.len() {
+            if rng.chance(1, 2) {
+                ops.push(Op::Set(vec![0]));
+            }
+            ops.push(Op::Ask(v));
+        }
+        for _ in 0..rng.below(6) {
+            match rng.below(5) {
+                0 => ops.push(Op::Set(vec![])),
+                1 => ops.push(Op::Set(vec![rng.below(txs.len() as u64) as usize, 0])),
+                2 => ops.push(Op::Set(vec![rng.below(txs.len() as u64) as usize])),
+                _ => ops.push(Op::Ask(rng.below(txs.len() as u64) as usize)),
+            }
+        }
+        if rng.chance(1, 3) {
+            // not the canonical prefix every time
+            ops.drain(0..rng.below(3) as usize);
+        }
+
+        // ---- run
+        let mut pending: Vec<usize> = vec![]; // reference: what an approval still covers
+        let mut answers: Vec<bool> = vec![];
+        let mut monitor: Vec<String> = vec![];
+        let mut jops: Vec<Value> = vec![];
+        let mut now = 1000 + rng.below(100_000);
+        for op in &ops {
+            match op {
+                Op::Set(ids) => {
+                    let approvals = || ids.iter().map(|i| Approval::Onchain(txs[*i].1.clone())).collect::<Vec<_>>();
+                    match kind {
+                        0 => memo_neg.approve(approvals()),
+                        1 => memo_vel.approve(approvals()),
+                        _ => {}
+                    }
+                    if kind <= 1 {
+                        pending = ids.clone();
+                    }
+                    jops.push(json!({"approve": ids.iter().map(|i| txs[*i].0).collect::<Vec<_>>()}));
+                }
+                Op::Ask(v) => {
+                    let (label, tx, coins) = &txs[*v];
+                    now += rng.below(50);
+                    world.clock.set(Duration::from_secs(now));
+                    let mut psbt = Psbt::from_unsigned_tx(tx.clone()).expect("psbt");
+                    for (k, c) in coins.iter().enumerate() {
+                        psbt.inputs[k].non_witness_utxo = Some(c.prev.clone());
+                        psbt.inputs[k].witness_utxo = Some(c.prev.output[c.vout as usize].clone());
+                    }
+                    if with_change {
+                        psbt.outputs[1].bip32_derivation.insert(change_pk.0, (bitcoin::bip32::Fingerprint::default(), path_of(&[change_key])));
+                    }
+                    let utxos: Vec<Utxo> = coins
+                        .iter()
+                        .map(|c| Utxo {
+                            txid: c.prev.compute_txid(),
+                            outnum: c.vout,
+                            amount: c.prev.output[c.vout as usize].value.to_sat(),
+                            keyindex: c.key,
+                            is_p2sh: false,
+                            script: Octets(c.prev.output[c.vout as usize].script_pubkey.to_bytes()),
+                            close_info: None,
+                            is_in_coinbase: false,
+                        })
+                        .collect();
+                    let request = msgs::SignWithdrawal { utxos: Array(utxos), psbt: WithSize(StreamedPSBT::new(psbt)) };
+                    let bytes = request.as_vec();
+                    let r = catch_unwind(AssertUnwindSafe(|| msgs::from_vec(bytes).map(|m| root.handle(m))));
+                    let mut signed = false;
+                    if let Ok(Ok(Ok(reply))) = r {
+                        if let Ok(Message::SignWithdrawalReply(rep)) = msgs::from_vec(reply.as_vec()) {
+                            let p = rep.psbt.0.inner;
+                            let mut ftx = p.unsigned_tx.clone();
+                            let mut complete = true;
+                            for k in 0..coins.len() {
+                                match p.inputs[k].final_script_witness.clone() {
+                                    Some(w) => ftx.input[k].witness = w,
+                                    None => complete = false,
+                                }
+                            }
+                            let spent = |op: &OutPoint| coins.iter().find(|c| c.prev.compute_txid() == op.txid).map(|c| c.prev.output[op.vout as usize].clone());
+                            signed = complete && ftx.verify(spent).is_ok();
+                        }
+                    }
+                    // reference: an approval names the whole transaction and is spent by any request
+                    let covered = pending.contains(v);
+                    pending.clear();
+                    let expected = covered || delegate_yes;
+                    if signed && !expected {
+                        let sin: u64 = coins.iter().map(|c| c.prev.output[c.vout as usize].value.to_sat()).sum();
+                        let sout: u64 = tx.output.iter().map(|o| o.value.to_sat()).sum();
+                        monitor.push(format!(
+                            "signed `{}` ({} sat to an unknown destination, {} sat fee, unchecked) although exactly this transaction holds no unused approval",
+                            label,
+                            tx.output[0].value.to_sat(),
+                            sin - sout
+                        ));
+                    }
+                    answers.push(signed);
+                    *stats.entry(format!("{}: {}", label, if signed { "signed" } else { "declined" })).or_insert(0) += 1;
+                    jops.push(json!({"request": label, "now": now, "signed": signed, "reference_expects": expected}));
+                }
+            }
+        }
+        if !monitor.is_empty() {
+            monitor_failures += 1;
+        }
+        let coq_ops: Vec<String> = ops
+            .iter()
+            .map(|o| match o {
+                // approvals given to an approver that does not memorize are no operation of the model
+                Op::Set(ids) => format!("MSet {}", if kind <= 1 { coq_nlist(&ids.iter().map(|i| *i as u64).collect::<Vec<_>>()) } else { "[]".to_string() }),
+                Op::Ask(v) => format!("MAsk {}", v),
+            })
+            .collect();
+        let coq = format!("({}, {}, {})", coq_bool(delegate_yes), coq_list(&coq_ops), coq_flags(&answers));
+        emit(
+            "CASE",
+            json!({"id": case, "kind": "memo", "approver": name,
+                   "transactions": txs.iter().map(|(l, t, c)| json!({"label": l, "txid": t.compute_txid().to_string(), "lock_time": t.lock_time.to_consensus_u32(),
+                        "inputs": c.iter().map(|c| json!({"outpoint": format!("{}:{}", c.prev.compute_txid(), c.vout), "value_sat": c.prev.output[0].value.to_sat()})).collect::<Vec<_>>(),
+                        "outputs": t.output.iter().enumerate().map(|(i, o)| json!({"value_sat": o.value.to_sat(), "to": if i == 0 { "unknown destination" } else { "wallet change" }})).collect::<Vec<_>>()})).collect::<Vec<_>>(),
+                   "operations": jops, "monitor_violation": monitor, "coq": coq}),
+        );
+    }
+    emit("STATS", json!({"kind": "memo", "profile": profile_name(), "requests": stats, "monitor_failures": monitor_failures}));
+}
+
 fn main() {
     // expected panics of the code under test are caught; keep them to one line on stderr
     std::panic::set_hook(Box::new(|info| {
@@ -2100,6 +2329,7 @@ fn main() {
         "val" => val_domain(&args),
         "witness" => witness_domain(&args),
         "handler" => handler_domain(&args),
+        "memo" => memo_domain(&args),
         other => {
             eprintln!("unknown sub-domain {}", other);
             std::process::exit(2);
